@@ -244,7 +244,7 @@ CHECKS['C15'] = dict(
          '{interpreter, JIT, JIT+SECURE} x HARD_AES x FULL_MEM x LARGE_PAGES x V2) x huge-page behaviour {available (simulated), unavailable}; the fault-free run counts the N requests the call issues '
          '(aligned allocation, operator new from library code, page mapping, large-page mapping), then for k = 1..N exactly the k-th request fails the way the real facility fails, in a child process per plan. '
          'Oracle: result NULL, live heap blocks / heap bytes / mapped bytes == before the call, no abnormal termination, then the same call fault-free succeeds, the object works (digest == fault-free digest) and '
-         'create/use/release returns to the initial live set (incl. munmap length rule for huge pages). Generated: sequences of up to 12 plans with generated fault indices and repeats (multi-fault histories, '
+         'create/use/release returns to the initial live set (incl. munmap length rule for huge pages), where use = caches re-initialised with keys of growing, shrinking and equal length, a VM created over them, re-key + rebind twice; VMs hashed through the single-call and the pipelined API and rebound twice; dataset ranges initialised - every request made during the use phase is accounted. Generated: sequences of up to 12 plans with generated fault indices and repeats (multi-fault histories, '
          'create/use/destroy cycles): live set at the end == start. Non-trivial: plan failing a request other than the first (partially constructed object); cycle with >= 2 faults',
     assumptions=COMMON_ASSUME + ['the exception object allocation of libstdc++ (__cxa_allocate_exception, plain malloc) is not interposed; every operator new, posix_memalign and mmap during the call is',
                                  'huge pages are simulated (flag stripped, kernel munmap rule applied as measured on this kernel)'],
